@@ -79,6 +79,7 @@ func main() {
 		noLazy   = flag.Bool("nolazy", false, "eager feasibility checks at every branch")
 		unwindV  = flag.Bool("unwindviol", false, "treat unwind bound excess as violation (loop-forever check)")
 		forceCVC = flag.Bool("cvc5", false, "send all queries to cvc5")
+		stopViol = flag.Int("stopviol", 0, "stop exploring after this many distinct violations that are not known findings (0: explore everything)")
 		sets     kvList
 	)
 	flag.Var(&sets, "set", "k=v integer parameter")
@@ -133,7 +134,7 @@ func main() {
 	e := &Engine{prog: prog, fset: fset, infos: map[*ssa.Function]*fnInfo{}, globals: map[*ssa.Global]int{},
 		violKeys: map[string]bool{}, incKeys: map[string]bool{}, coversHit: map[string]bool{}, coversDecl: map[string]bool{},
 		fnsExecuted: map[string]int{}, stubsHit: map[string]int{}, assumptions: map[string]int{}, kfSeen: map[string]bool{}}
-	e.cfg = Config{Unwind: *unwind, MaxSteps: *maxSteps, Merge: !*noMerge, MaxPaths: *maxPaths, Trace: *trace, Preempt: *preempt,
+	e.cfg = Config{Unwind: *unwind, MaxSteps: *maxSteps, Merge: !*noMerge, MaxPaths: *maxPaths, StopViol: *stopViol, Trace: *trace, Preempt: *preempt,
 		Lockset: *lockset, ConcMax: *concMax, Witnesses: *wit, KnownKF: map[string]bool{}, UnwindViol: *unwindV}
 	e.cfg.Lazy = !*noLazy
 	e.cfg.NoSlice = *noSlice
@@ -309,6 +310,7 @@ func (e *Engine) runInit(root *State, main *ssa.Package) []string {
 		}
 	}
 	e.pathsDone, e.pathsPanic, e.pathsInfeasible = 0, 0, 0
+	e.stopNow = false
 	e.fnsExecuted = map[string]int{}
 	e.stubsHit = map[string]int{}
 	e.witnesses = nil
